@@ -642,6 +642,8 @@ class Quaternion(np.ndarray):
         q_norm = np.linalg.norm(q)
         if q_norm == 0.0:
             raise ValueError("Quaternion cannot be a zero vector.")
+        if np.isnan(q_norm):
+            raise ValueError("Quaternion cannot contain NaN values.")
         if versor:
             q /= q_norm
         # Create the ndarray instance of type Quaternion. This will call the
